@@ -11,13 +11,16 @@ from .. import estimators as E, gen
 RULE = ('ITML/MMC/SDML (pairs), SCML (triplets), LSML (quadruplets), fitted on generated data, with tuples '
         'given formed or as indices through an array preprocessor; test tuples are index tuples into a pool of '
         '3-8 points (small-integer or float coordinates) with forced ties (repeated pairs, a==b, b==c, '
-        '(c,d)==(a,b) or (b,a)); for pairs learners a drawn history of threshold operations {set_threshold(t) '
+        '(c,d)==(a,b) or (b,a)), the pool stored as float64 or float32 and on the training scale, x1e20 or x1e-25; '
+        'for pairs learners a drawn history of threshold operations {set_threshold(t) '
         'with t an exact test distance / its nextafter neighbours / 0 / negative / inf / arbitrary / int / '
         'numeric string, calibrate_threshold(strategy), refit with or without calibration_params}. '
         'Non-trivial = the batch contains a tie or a distance within 4 ulp of the threshold, or the history '
         'has >= 2 threshold operations; distinct by the canonical case.')
-ASSUMPTIONS = ['distances used by the oracle come from the public pair_distance on a batch of the same length '
-               '(so exact equality is meaningful)', 'AUC compared with a brute-force Mann-Whitney count within 1e-12']
+ASSUMPTIONS = ['distances used by the decision oracle come from the public pair_distance on a batch of the same length '
+               '(so exact equality is meaningful); pair_distance itself is compared with the double-precision Mahalanobis '
+               'distance under components_ on the same coordinate values, within 1e-9 relative + 8 eps(input dtype) sqrt(d) '
+               'sigma_max(L) (|x|+|x\'|)', 'AUC compared with a brute-force Mann-Whitney count within 1e-12']
 
 NAMES = ['ITML', 'MMC', 'SDML', 'SCML', 'LSML']
 SIZE = {'ITML': 2, 'MMC': 2, 'SDML': 2, 'SCML': 3, 'LSML': 4}
@@ -56,7 +59,8 @@ def case_strategy(draw, name):
       else:
         t = [t[1], t[0], t[3], t[2]] if draw(st.booleans()) else [t[0], t[1], t[1], t[0]]
       tuples.append(t)
-  case = dict(model=m, pool=pool, tuples=tuples, preproc=draw(st.booleans()))
+  case = dict(model=m, pool=pool, tuples=tuples, preproc=draw(st.booleans()),
+              pool_repr=draw(st.sampled_from(['f64', 'f64', 'f64', 'f32', 'f32-huge', 'f32-tiny', 'f64-huge', 'f64-tiny'])))
   if ts == 2:
     labels = draw(st.lists(st.sampled_from([1, -1]), min_size=len(tuples), max_size=len(tuples)))
     labels[0], labels[1] = 1, -1
@@ -95,6 +99,9 @@ def check_c04(case, stats):
   name = m['est']
   ts = SIZE[name]
   pool = np.array(case['pool'], dtype=float)
+  rep = case.get('pool_repr', 'f64')
+  # every finite test tuple: single precision points, and points on a scale far from the training data
+  pool = (pool * {'huge': 1e20, 'tiny': 1e-25}.get(rep[4:], 1.0)).astype(np.float32 if rep.startswith('f32') else np.float64)
   idx = np.array(case['tuples'], dtype=int)
   data = gen.Data(m['desc'])
   extra = {'preprocessor': pool} if case['preproc'] else {}
@@ -109,11 +116,23 @@ def check_c04(case, stats):
   formed = pool[idx]
   arg = idx if case['preproc'] else formed
 
+  L = np.asarray(est.components_, dtype=float)
+  smax = float(np.linalg.norm(L, 2)) if L.size else 0.0
+  eps_in = 1.2e-7 if rep.startswith('f32') else 2.3e-16
+
   def pdist(cols):
     sub = idx[:, cols] if case['preproc'] else formed[:, cols]
-    return np.asarray(call('C04/pair_distance/' + name, est.pair_distance, sub))
+    got = np.asarray(call('C04/pair_distance/' + name, est.pair_distance, sub))
+    # the learned distance itself, evaluated in double precision on the very same coordinate values
+    a64, b64 = formed[:, cols[0]].astype(np.float64), formed[:, cols[1]].astype(np.float64)
+    ref = np.sqrt((((b64 - a64).dot(L.T)) ** 2).sum(axis=1))
+    tol = 1e-9 * ref + 8 * eps_in * math.sqrt(L.shape[1]) * smax * (np.abs(a64).max(axis=1) + np.abs(b64).max(axis=1))
+    if got.shape != ref.shape or not (np.abs(got - ref) <= tol).all():
+      raise Violation('C04/learned-distance/%s/%s' % (name, rep),
+                      'pair_distance %s vs sqrt((x-x\')^T M (x-x\')) %s (tolerance %s)' % (got.tolist(), ref.tolist(), tol.tolist()))
+    return got
 
-  classes = [name, 'preproc' if case['preproc'] else 'formed']
+  classes = [name, 'preproc' if case['preproc'] else 'formed', 'pool:' + rep]
   nontrivial = False
   if ts == 2:
     y = np.array(case['labels'])
